@@ -174,4 +174,25 @@ def firstBad (g : SGraph) (min eps : Rat) (maxDepth : Nat) (seed : Nat) (tr : AT
         | none => true
       else true).getD tr.length
 
+/-! ### seed selection (`find_optimal_seed` as `_auto_mine` calls it)
+
+`sorted(candidates, key=(1 - taint, association confidence), reverse=True)[0]` over the event object
+nodes whose taint is not above 0; `none` ends mining. Equally good candidates come out in the order
+of a dictionary, so the model checks a choice rather than making it. -/
+
+structure Cand where
+  id : Nat
+  taint : Rat
+  conf : Rat
+deriving Repr
+
+def seedKeyLe (a b : Cand) : Bool :=
+  decide (1 - a.taint < 1 - b.taint) || (decide (1 - a.taint = 1 - b.taint) && decide (a.conf ≤ b.conf))
+
+def pickOk (cands : List Cand) (choice : Option Nat) : Bool :=
+  let free := cands.filter fun c => decide (c.taint ≤ 0)
+  match choice with
+  | none => free.isEmpty
+  | some k => free.any fun c => c.id == k && free.all fun d => seedKeyLe d c
+
 end Edxml.Miner
